@@ -276,7 +276,7 @@ class Gir:
                 items.append(self.stmt(s, ctx))
             if e.get('expr') is not None:
                 items.append(self.stmt(e['expr'], ctx))
-            items = [i for i in items if i['op'] != 'empty' and not i.get('absorbed')]
+            items = [i for i in items if (i['op'] != 'empty' or i.get('brk')) and not i.get('absorbed')]
             if not items:
                 return T('empty')
             if len(items) == 1:
@@ -365,11 +365,21 @@ class Gir:
             c = self.stmt(e['cond'], ctx)
             a = self.stmt(e['then'], ctx)
             b = self.stmt(e['else'], ctx) if 'else' in e else T('empty')
-            alt = T('alt', items=[a, b], l=l, stmtform=True) if (a['op'] != 'empty' or b['op'] != 'empty') else T('empty')
+            nonempty = lambda x: x['op'] != 'empty' or x.get('brk')
+            alt = T('alt', items=[a, b], l=l, stmtform=True) if (nonempty(a) or nonempty(b)) else T('empty')
             items = [i for i in (c, alt) if i['op'] != 'empty']
             if not items:
                 return T('empty')
-            return items[0] if len(items) == 1 else T('seq', items=items, out=None, l=l, stmtform=True)
+            if len(items) == 1:
+                return items[0]
+            r = T('seq', items=items, out=None, l=l, stmtform=True)
+            cond = e['cond']
+            if cond.get('k') == 'letexpr' and (cond.get('pat') or {}).get('k') == 'p_tuplestruct':
+                # `if let Some(x) = opt(p).parse_next(input)? { a } else { b }`: a runs iff p matched (used by verif/regular.py)
+                pp = cond['pat'].get('path') or ''
+                if pp.endswith('Option::Some'):
+                    r['iflet'] = 'Some'
+            return r
         if k == 'letexpr':
             return self.stmt(e['init'], ctx)
         if k == 'loop':
@@ -377,7 +387,12 @@ class Gir:
             if b['op'] == 'empty':
                 return T('empty')
             return T('rep', min=0, max=INF, p=b, l=l, node=e, handloop=True)
-        if k in ('ret', 'break'):
+        if k == 'break':
+            t = self.stmt(e['v'], ctx) if 'v' in e else T('empty')
+            if t['op'] == 'empty':
+                return T('empty', brk=True, l=l)
+            return T('seq', items=[t, T('empty', brk=True, l=l)], out=None, l=l, stmtform=True)
+        if k == 'ret':
             return self.stmt(e['v'], ctx) if 'v' in e else T('empty')
         if k == 'closure':
             return T('empty')
